@@ -182,7 +182,9 @@ func (f *Fosite) DefaultClientAuthenticationStrategy(ctx context.Context, r *htt
 		if err != nil {
 			return nil, errorsx.WithStack(err)
 		}
-		if err := f.Store.SetClientAssertionJWT(ctx, jti, time.Unix(expiry, 0)); err != nil {
+		// token.Claims.Valid() honours the assertion through the whole second named by 'exp', so the jti has to be
+		// remembered until that second is over, or the assertion can be replayed during it.
+		if err := f.Store.SetClientAssertionJWT(ctx, jti, time.Unix(expiry, 0).Add(time.Second)); err != nil {
 			return nil, err
 		}
 
